@@ -36,10 +36,13 @@ class Baseline:
         self.objs = []         # (mutable object, snapshot)
         self.caches = []       # objects with cache_clear()
         self.attrs = []        # (owner, name, snapshot) for rebinding of simple module/class attributes
+        self.fdicts = []       # (function, copy of its __dict__)
+        self.namespaces = []   # (module or class, set of attribute names at import time)
         seen = set()
         for name, mod in list(sys.modules.items()):
             if mod is None or not (name == prefix or name.startswith(prefix + ".")):
                 continue
+            self.namespaces.append((mod, set(vars(mod))))
             self._scan(vars(mod), mod, seen, depth=0)
 
     def _scan(self, namespace, owner, seen, depth):
@@ -54,9 +57,8 @@ class Baseline:
                     seen.add(id(val))
                     if _has_mutable(fn.__defaults__) or _has_mutable(fn.__kwdefaults__):
                         self.funcs.append((fn, copy.deepcopy(fn.__defaults__), copy.deepcopy(fn.__kwdefaults__)))
-                    if fn.__dict__:
-                        self.objs.append((fn.__dict__, copy.deepcopy({k: v for k, v in fn.__dict__.items()
-                                                                      if isinstance(v, _MUTABLE + (int, float, str, bool, type(None)))})))
+                    # attributes hung on the function object at run time (memo: f._cache = ...) must not survive either
+                    self.fdicts.append((fn, dict(fn.__dict__)))
             elif hasattr(val, "cache_clear") and callable(getattr(val, "cache_clear", None)):
                 seen.add(id(val))
                 self.caches.append(val)
@@ -68,11 +70,22 @@ class Baseline:
                     pass
             elif isinstance(val, type) and str(getattr(val, "__module__", "")).startswith(self.prefix) and depth < 2:
                 seen.add(id(val))
+                self.namespaces.append((val, set(vars(val))))
                 self._scan(dict(vars(val)), val, seen, depth + 1)
             elif isinstance(val, (int, float, str, bool, type(None), tuple)) and not isinstance(owner, type):
                 self.attrs.append((owner, attr, val))
 
     def restore(self):
+        for fn, snap in self.fdicts:
+            if fn.__dict__ != snap:
+                fn.__dict__.clear()
+                fn.__dict__.update(snap)
+        for owner, names in self.namespaces:
+            for extra in [k for k in vars(owner) if k not in names and not (k.startswith("__") and k.endswith("__"))]:
+                try:
+                    delattr(owner, extra)          # a global / class attribute created at run time
+                except Exception:
+                    pass
         for fn, d, kd in self.funcs:
             fn.__defaults__ = copy.deepcopy(d)
             fn.__kwdefaults__ = copy.deepcopy(kd)
@@ -105,15 +118,29 @@ class ProcessStates:
         self.store = {}
 
     def _capture(self):
+        extras = []
+        for owner, names in self.b.namespaces:
+            extras.append({k: v for k, v in vars(owner).items()
+                           if k not in names and not (k.startswith("__") and k.endswith("__"))})
         return ([(copy.deepcopy(fn.__defaults__), copy.deepcopy(fn.__kwdefaults__)) for fn, _, _ in self.b.funcs],
                 [copy.deepcopy(obj) for obj, _ in self.b.objs],
-                [getattr(owner, attr, val) for owner, attr, val in self.b.attrs])
+                [getattr(owner, attr, val) for owner, attr, val in self.b.attrs],
+                [dict(fn.__dict__) for fn, _ in self.b.fdicts], extras)
 
     def _apply(self, snap):
         if snap is None:
             self.b.restore()
             return
-        fdefs, objs, attrs = snap
+        fdefs, objs, attrs, fdicts, extras = snap
+        self.b.restore()                       # drops run-time additions; the process's own ones are put back below
+        for (fn, _), d in zip(self.b.fdicts, fdicts):
+            fn.__dict__.update(d)
+        for (owner, _), ex in zip(self.b.namespaces, extras):
+            for k, v in ex.items():
+                try:
+                    setattr(owner, k, v)
+                except Exception:
+                    pass
         for (fn, _, _), (d, kd) in zip(self.b.funcs, fdefs):
             fn.__defaults__, fn.__kwdefaults__ = copy.deepcopy(d), copy.deepcopy(kd)
         for (obj, _), val in zip(self.b.objs, objs):
@@ -149,9 +176,20 @@ def process_states():
     return ProcessStates(_BASELINE)
 
 
+_NP_ERR = None
+
+
 def reset_library_state():
     """Called at the start of every simulated run."""
-    global _BASELINE
+    global _BASELINE, _NP_ERR
+    try:
+        import numpy as np
+        if _NP_ERR is None:
+            _NP_ERR = np.geterr()
+        elif np.geterr() != _NP_ERR:
+            np.seterr(**_NP_ERR)            # process-global NumPy error state changed by an earlier run
+    except Exception:
+        pass
     if _BASELINE is None:
         import importlib
         for m in ("traffic_weaver", "traffic_weaver.datasets", "traffic_weaver.datasets._datasets"):
